@@ -220,6 +220,7 @@ def _work_chunk(args):
     for pos, i in enumerate(indices):
         before = list(executed)
         executed.append(i)
+        faulthandler.dump_traceback_later(600, exit=True)       # per scenario (re-armed), not per chunk
         try:
             scn = make_scenario(prop, stratum, master, i)
             run, viols, counters = run_scenario(prop, scn)
